@@ -114,6 +114,71 @@ def mk_builtin_vs_wrapped(name, T, R, BT, opn, side, blo=None, bhi=None):
                   tags={"op": opn, "family": "builtin-vs-wrapped"})
 
 
+def mk_builtin_value(name, T, R, E, lo, hi, BT, opn, side):
+    """CNL number OP built-in integer, judged BY VALUE (the built-in need not be representable in the CNL type)"""
+    o = CMP[opn]
+    decl = "using {n}_T = %s;\n" % T
+    body = ("    return verif::mk<{n}_T>(a) %s b;" if side == 0 else "    return b %s verif::mk<{n}_T>(a);") % o
+
+    def pre(env):
+        c = []
+        if lo is not None:
+            c.append(env.a["a"] >= lo)
+        if hi is not None:
+            c.append(env.a["a"] <= hi)
+        # as for scaled pairs: the exponent-aligned representations fit the promoted operand types (an alignment that
+        # overflows is the up-scaling defect recorded under C04, not a comparison matter)
+        if E < 0:
+            c.append(fits(env.a["b"] * (1 << (-E)), promote(BT)))
+        elif E > 0 and "elastic" not in T:
+            c.append(fits(env.a["a"] * (1 << E), promote(R)))
+        return X.And(*c)
+
+    def claims(env, path):
+        if path.kind != "RET":
+            return [("unexpected-outcome", False)]
+        x, y = env.a["a"], env.a["b"]
+        if E >= 0:
+            x = x * (1 << E)
+        else:
+            y = y * (1 << (-E))
+        if side == 1:
+            x, y = y, x
+        return [("relation-by-value", as_bool_claim(env, path, rel(opn, x, y)))]
+    return Kernel(name, [("a", R), ("b", BT)], "bool", body.replace("{n}", name), decls=decl.replace("{n}", name), mode="bv",
+                  W=64 + abs(E) + 8, pre=pre, claims=claims, desc="%s(%s) %s built-in %s (side %d) by value" % (T, R, o, BT, side),
+                  tags={"op": opn, "family": "builtin-by-value"})
+
+
+def mk_wide_mixed(name, D1, D2, opn):
+    """two multi-limb wide_integers of DIFFERENT widths, built through the type's own operators: a = ah*2^64 + al
+    (D1 digits), b = bh*2^128 + bl (D2 digits)"""
+    import z3
+    o = CMP[opn]
+    body = ("    using W1 = cnl::wide_integer<%d>;\n    using W2 = cnl::wide_integer<%d>;\n"
+            "    W1 a = (W1{ah} << 64) + W1{al};\n    W2 b = (W2{bh} << 128) + W2{bl};\n"
+            "    return a %s b;") % (D1, D2, o)
+    WW = 260
+
+    def claims(env, path):
+        if path.kind != "RET":
+            return [("unexpected-outcome", False)]
+        if getattr(path, "concrete", False):
+            A = env.a["ah"] * (1 << 64) + env.a["al"]
+            B = env.a["bh"] * (1 << 128) + env.a["bl"]
+            exp = {"eq": A == B, "ne": A != B, "lt": A < B, "le": A <= B, "gt": A > B, "ge": A >= B}[opn]
+            return [("relation-by-value", bool(env.ret(path)) == exp)]
+        ah, al, bh, bl = (env.dom.E(env.raw[k_]) for k_ in ("ah", "al", "bh", "bl"))
+        A = z3.SignExt(WW - 64, ah) * z3.BitVecVal(1 << 64, WW) + z3.ZeroExt(WW - 64, al)
+        B = z3.SignExt(WW - 64, bh) * z3.BitVecVal(1 << 128, WW) + z3.ZeroExt(WW - 64, bl)
+        exp = {"eq": A == B, "ne": A != B, "lt": A < B, "le": A <= B, "gt": A > B, "ge": A >= B}[opn]
+        return [("relation-by-value", as_bool_claim(env, path, exp))]
+    return Kernel(name, [("ah", "i64"), ("al", "u64"), ("bh", "i64"), ("bl", "u64")], "bool", body, mode="bv", W=72, claims=claims,
+                  unwind=80, max_paths=20000, timeout=120,
+                  desc="wide_integer<%d> %s wide_integer<%d> (multi-limb, different widths)" % (D1, o, D2),
+                  tags={"op": opn, "family": "wide-mixed-width", "D1": D1, "D2": D2})
+
+
 def kernels(opts):
     tier = opts["tier"]
     rng = random.Random("c03/%s/%s" % (opts["seed"], tier))
@@ -154,6 +219,23 @@ def kernels(opts):
                     specs.append(("w", T, R, BT, opn, side, lo, hi))
     frac = 0.3 if tier == "quick" else 1.0
     specs = seeded_subset(specs, frac, opts["seed"], "c03")
+    # by-value comparisons with built-in integers that the CNL type cannot represent (always run).  Only pairings
+    # for which the statement promises a by-value answer: elastic reps, or native reps of the same signedness
+    for opn in CMP:
+        for side in (0, 1):
+            for (T, R, E, lo, hi, BTs) in (
+                    ("cnl::elastic_integer<31>", "i32", 0, -(2 ** 31 - 1), 2 ** 31 - 1, ("u32", "i64", "u64")),
+                    ("cnl::elastic_integer<10>", "i16", 0, -1023, 1023, ("i64", "u32", "i8")),
+                    ("cnl::elastic_integer<16, unsigned>", "u16", 0, 0, None, ("i32", "i64")),
+                    ("cnl::elastic_scaled_integer<8, cnl::power<2>>", "i16", 2, -255, 255, ("i32", "u64")),
+                    ("cnl::elastic_scaled_integer<12, cnl::power<-3>>", "i16", -3, -4095, 4095, ("i32", "i64")),
+                    ("cnl::scaled_integer<std::int16_t, cnl::power<2>>", "i16", 2, None, None, ("i32", "i64")),
+                    ("cnl::scaled_integer<std::int32_t, cnl::power<-4>>", "i32", -4, None, None, ("i64", "i8")),
+                    ("cnl::scaled_integer<std::uint8_t, cnl::power<0>>", "u8", 0, None, None, ("u32", "u64"))):
+                for BT in BTs:
+                    specs.append(("v", T, R, E, lo, hi, BT, opn, side))
+    for opn in ("lt", "le", "gt", "ge"):   # (== and != between different widths do not compile)
+        specs.append(("wm", 130, 200, opn))
     ks = []
     for s in specs:
         n = "K%d" % len(ks)
@@ -161,6 +243,10 @@ def kernels(opts):
             ks.append(mk_scaled(n, *s[1:]))
         elif s[0] == "e":
             ks.append(mk_elastic(n, *s[1:]))
+        elif s[0] == "v":
+            ks.append(mk_builtin_value(n, *s[1:]))
+        elif s[0] == "wm":
+            ks.append(mk_wide_mixed(n, *s[1:]))
         else:
             ks.append(mk_builtin_vs_wrapped(n, *s[1:]))
     return ks
